@@ -1,6 +1,6 @@
 (** Comparators for C20 cases (no proofs): model vs implementation ([*_mismatch]) and the
     property acceptors of Decor/Monitor.v on what the implementation did ([*_violates]). *)
-From WM Require Import Base.Prelude Message.Model Handler.RouterHandle Decor.Model Decor.Heap Decor.Monitor.
+From WM Require Import Base.Prelude Message.Model Handler.RouterHandle Decor.Model Decor.Heap Decor.Monitor Decor.RouterMetrics.
 
 (** * publisher stacks *)
 Record pub_case := PubCase {
@@ -85,8 +85,6 @@ Definition sub_violates (c : sub_case) : bool :=
   negb (sub_monitor (sk_st c) (sk_heap c) (sk_ops c) (sk_seen c)).
 
 (** * handler middleware, alone or through a Router with AddPrometheusRouterMetrics *)
-Record rmsg := RMsg { rm_out : hout; rm_nouts : nat; rm_pub_ok : bool }.
-
 Record mw_case := MwCase {
   mk_layers : nat;                      (* how often the middleware / the whole metrics set was applied *)
   mk_router : bool;                     (* through a real Router (handler, subscriber and publisher metrics) *)
@@ -97,25 +95,16 @@ Record mw_case := MwCase {
   mk_ptab : list (plabel * nat)         (* publish_time_seconds *)
 }.
 
-Definition rm_chain (m : rmsg) : chain_result N :=
-  CR PreNone (match rm_out m with
-              | HOk => Ret (repeat 0%N (rm_nouts m))
-              | HErr => Fail []
-              | HPanic => Panic end).
-Definition rm_handle (m : rmsg) := handle PubReal (if rm_pub_ok m then PubAccept else PubError) (rm_chain m).
-
 Definition mw_calls (c : mw_case) : list (N * hout) := map (fun m => (mk_hname c, rm_out m)) (mk_msgs c).
 
 (** what the Router does with each message (C02 model) decides the subscriber and publisher metrics *)
 Definition router_sobs (c : mw_case) : list slabel :=
   if mk_router c && negb (Nat.eqb (mk_layers c) 0) then
-    map (fun m => (mk_hname c, mk_sname c, settle_eqb (st (fst (rm_handle m))) Acked)) (mk_msgs c)
+    flat_map (rm_sobs (mk_hname c) (mk_sname c)) (mk_msgs c)
   else [].
 Definition router_pobs (c : mw_case) : list plabel :=
   if mk_router c && negb (Nat.eqb (mk_layers c) 0) then
-    flat_map (fun m => flat_map (fun e => match e with
-                                          | HPublishRet ok => [(mk_hname c, mk_pname c, ok)]
-                                          | _ => [] end) (snd (rm_handle m))) (mk_msgs c)
+    flat_map (rm_pobs (mk_hname c) (mk_pname c)) (mk_msgs c)
   else [].
 
 (** mismatch against the model variant [fixed] *)
